@@ -90,3 +90,24 @@ def check_descendant_slices(src, soup, kindprefix, case):
             raise H.Violation('%s:descendant-slice' % kindprefix, case,
                               'descendant recorded at %d: source has %r, node text is %r' % (p, src[p:p + len(s)][:80], s[:80]))
     return n
+
+
+def locate(soup, a):
+    """The TexNode whose recorded position is `a`, by descending through the spans that contain it."""
+    cur = soup
+    for _ in range(200):
+        nxt = None
+        for c in cur.contents:
+            if O.classify(c) != 'node':
+                continue
+            p = c.position
+            if not isinstance(p, int) or p < 0:
+                continue
+            if p == a:
+                return c
+            if p < a < p + len(str(c)):
+                nxt = c
+        if nxt is None:
+            return None
+        cur = nxt
+    return None
